@@ -815,6 +815,19 @@ func (e *Env) call(n *CCall) CV {
 			t = types.Typ[types.Int64]
 		}
 		return CV{T: g.unbox(v.T, t), Ty: t}
+	case "astype":
+		// astype(x, "T"): the dynamic value of interface x, read as type T (meaningful when hastype(x, "T"))
+		need(2)
+		v := e.eval(n.Args[0])
+		tn := e.eval(n.Args[1])
+		if tn.K == nil {
+			panic(cerr("astype needs a literal type name"))
+		}
+		t, _ := e.typeByName(constant.StringVal(tn.K))
+		if t == nil {
+			panic(cerr("astype: unknown type %s", constant.StringVal(tn.K)))
+		}
+		return CV{T: g.unbox(v.T, t), Ty: t}
 	case "deref":
 		need(1)
 		v := e.eval(n.Args[0])
